@@ -72,6 +72,14 @@ CHECKS = {
               'rows it returns are compared in order with the reference, and three consumers (copy, aggregation, negation) must see exactly '
               'the first K rows. Single-rule targets make the annotation the only thing that prevents inlining.'),
         note='trusted: SQLite NULL/str ordering; limit without total order judged only when unambiguous'),
+    'C12': dict(
+        category='exploration', design_ref='DESIGN.md 4/C12',
+        technique='runtime monitor: generated import trees parsed by both parsers (C++ built from the current source; ASan+UBSan build in the thorough tier) and executed on SQLite vs the reference on the flattened program; negative import graphs must raise ParsingException',
+        text=('Single-file generated programs (also with functor applications) are split into import trees with same-named private predicates, '
+              'exported names that need aliases, shared base names, diamonds and several import roots; every main-file predicate is executed '
+              'under both parsers and compared with the reference evaluator on the flattened program; rule sets of the two parsers are compared; '
+              'cycles, undefined / unused imports and redefinitions must be rejected with ParsingException.'),
+        note='trusted: reference evaluator; flattening = the generator\'s own single-file program'),
     'C14': dict(
         category='exploration', design_ref='DESIGN.md 4/C14',
         technique='runtime trace monitor: start events recorded at the sql_runner boundary checked offline against a trace specification; icontract post-conditions on the scheduler state; stop-signal fault injection',
